@@ -160,11 +160,8 @@ def ccElement : Node → St → St
     | some t' => t'
     | none => t
 
-/-- `charClass` -/
-def charClass (els : Nodes) (neg : Bool) (t : St) : St :=
-  let t := { t with mode := if neg then .ncc else .cc }
-  let split := els.toList.filter (hasToBeSplit t)
-  let internal := els.toList.filter (fun n => !hasToBeSplit t n)
+/-- the body of `charClass` once the elements are partitioned (`t` is already in class mode) -/
+def ccBody (split internal : List Node) (neg : Bool) (t : St) : St :=
   let t := if split.isEmpty then t else t.write (lit "(?:")
   let t :=
     if !internal.isEmpty then
@@ -176,13 +173,16 @@ def charClass (els : Nodes) (neg : Bool) (t : St) : St :=
       t.write (if neg then lit "[\\x{0}-\\x{10FFFF}]" else lit "[^\\x{0}-\\x{10FFFF}]")
     else t
   let t := { t with mode := .top }
-  if split.isEmpty then t
-  else
-    match split with
-    | [] => t
-    | first :: rest =>
-      let t := ccElement first (if internal.isEmpty then t else t.write [124])
-      (rest.foldl (fun t n => ccElement n (t.write [124])) t).write [41]
+  match split with
+  | [] => t
+  | first :: rest =>
+    let t := ccElement first (if internal.isEmpty then t else t.write [124])
+    (rest.foldl (fun t n => ccElement n (t.write [124])) t).write [41]
+
+/-- `charClass` -/
+def charClass (els : Nodes) (neg : Bool) (t : St) : St :=
+  let t := { t with mode := if neg then .ncc else .cc }
+  ccBody (els.toList.filter (hasToBeSplit t)) (els.toList.filter (fun n => !hasToBeSplit t n)) neg t
 
 /-- the part of `group` before the content; answers (state, wroteFlagsHeader, hasVisibleContent) -/
 def groupOpen (hasRegex : Bool) (name : Str) (set unset : Flags) (nc : Bool) (t : St) : St × Bool × Bool :=
